@@ -31,7 +31,7 @@ void vmock_reset_config(void)
 {
     memset(&VM, 0, sizeof VM);
     for (int i = 0; i < VM_NCAM; ++i)
-        VM.cam[i] = (struct vm_cam_cfg){ .width = 3, .height = 1, .type = SampleType_u8, .exposure_ms = 10, .fail_get_frame_at = -1, .reshape_at = -1, .fail_start_at = -1 };
+        VM.cam[i] = (struct vm_cam_cfg){ .width = 3, .height = 1, .type = SampleType_u8, .exposure_ms = 10, .fail_get_frame_at = -1, .fail_shape_at = -1, .reshape_at = -1, .fail_start_at = -1 };
     for (int i = 0; i < VM_NSTORE; ++i)
         VM.store[i] = (struct vm_store_cfg){ .append_ms = 0, .fail_append_at = -1, .fail_start_at = -1 };
     for (int i = 0; i < VM_NCAM + VM_NSTORE; ++i) { VM.dev[i].kind = i < VM_NCAM ? 1 : 2; VM.dev[i].idx = i < VM_NCAM ? i : i - VM_NCAM; }
@@ -158,6 +158,7 @@ static enum DeviceStatusCode vcam_get_shape(const struct Camera* c, struct Image
     struct vm_dev* d = cam_of(c);
     monitor(d, VC_GET_SHAPE);
     cam_shape(d->idx, s);
+    if (d->started && VM.cam[d->idx].fail_shape_at >= 0 && d->shape_calls_in_run++ == VM.cam[d->idx].fail_shape_at) { vs_event(40); return Device_Err; }
     return Device_Ok;
 }
 static enum DeviceStatusCode vcam_start(struct Camera* c)
@@ -166,7 +167,7 @@ static enum DeviceStatusCode vcam_start(struct Camera* c)
     logcall(d, VC_START, d->starts); monitor(d, VC_START);
     int k = d->starts++;
     if (VM.cam[d->idx].fail_start_at == k) return Device_Err;
-    d->started = 1; d->acq++; d->calls_in_run = 0; d->hw_id = 0; d->stop_flag = 0;
+    d->started = 1; d->acq++; d->calls_in_run = 0; d->shape_calls_in_run = 0; d->hw_id = 0; d->stop_flag = 0;
     d->triggers = 0; d->consumed = 0;
     return Device_Ok;
 }
